@@ -115,9 +115,14 @@ class Interp:
         return r
 
     # ------------------------------------------------------------ completions
-    def release(self, a):
+    def release(self, a, value=None):
         self.w.op("rel", a)
-        return self.w.release(a)
+        return self.w.release(a, value)
+
+    def selfret(self):
+        """The next worker that starts cancels its own task and returns at once."""
+        self.w.op("arm-selfret")
+        self.w.selfret[0] = self.pool
 
     def fail(self, a):
         self.w.op("fail", a)
@@ -266,6 +271,10 @@ def act(it, name, a):
         it.release(a)
     elif name == "fail":
         it.fail(a)
+    elif name == "relexc":
+        it.release(a, value=RuntimeError("a result, not a failure"))
+    elif name == "selfret":
+        it.selfret()
     elif name == "cbrel":
         it.cb_release(a)
     elif name == "cbcancel":
